@@ -107,12 +107,17 @@ def explore(tier, seed, model_ok=True, focus=False):
     ex = explore_farm("C05", tier, seed, monitor, nontrivial, RULE, model_ok, focus, corpus=corpus())
     ex2 = explore_locked("C05", tier, seed, monitors_c05_with_lock, nontrivial_c05, RULE, model_ok, focus, scale=0.5, corpus=corpus_locked("C05"))
     ex = merge_into(ex, ex2)
-    from props.staking_common import explore_staking
-    ex3 = explore_staking("C05", tier, seed, staking_monitor, staking_nontrivial, RULE, model_ok, focus, scale=0.5)
-    return merge_into(ex, ex3)
+    # farm-staking, position-level world and model (Model/StakingPos.v): reserve = accrued - paid, reserve covers the
+    # claimable base rewards of all live positions + boosted pools, principal backed, no counter underflow
+    from props import staking_pos_common as spc
+    ex3 = spc.explore_staking_pos("C05", tier, seed, spc.monitors_c05, spc.nontrivial_c05, spc.RULE, model_ok, focus, scale=0.5)
+    return spc.merge_exploration(ex, ex3)
 
 
 def replay(data):
+    if data.get("replay", {}).get("system") == "stakingpos":
+        from props import staking_pos_common as spc
+        return spc.replay_staking_pos(data, spc.monitors_c05)
     if data.get("replay", {}).get("system") == "staking":
         from props.staking_common import replay_staking
         return replay_staking(data, staking_monitor)
